@@ -98,6 +98,7 @@ PROPS = {
         "lean_targets": ["Proofs.GenWordOps", "Proofs.GenTables"],
     },
     "C08": {
+        "extra_modules": ["CGenK"],
         "known_ok": ["fma-product-exponent-out-of-range"],
         "gens": [{"name": "mix", "quick": 900, "thorough": 4000}, {"name": "C08", "quick": 250, "thorough": 1500}, {"name": "C12", "quick": 1500, "thorough": 6000}, {"name": "C17", "quick": 600, "thorough": 3000},
                  {"name": "C20", "quick": 500, "thorough": 3000}, {"name": "setters", "quick": 800, "thorough": 3000},
@@ -174,6 +175,7 @@ PROPS = {
         "lean_targets": ["Proofs.GenWordOps", "Proofs.GenTables"],
     },
     "C17": {
+        "extra_modules": ["CGenK"],
         "gens": [{"name": "mix", "quick": 900, "thorough": 4000}, {"name": "C17", "quick": 2500, "thorough": 12000}],
         "nontrivial": {"rejected", "accepted", "into-nonzero-prec", "acc", "mode", "inexact"},
         "rule": ARITH_RULE + "GobEncode/GobDecode directly and through encoding/gob; hostile payloads: valid encodings truncated at a random length, one bit/byte flipped, extended, attribute byte replaced, a word >= 10^19, zero top word, precision below the digits sent, random bytes; non-trivial = a mutated payload (accepted or rejected), a non-default attribute, or decoding into a receiver with its own precision",
